@@ -17,11 +17,31 @@ ASSUMPTIONS = ["the theorem part covers dtype selection, the sentinel round trip
 DTYPES = ["int32", "int64", "uint32", "uint64"]
 
 
+def corpus():
+    # round-6 seed C16-r6bug1: a coarse cell without outlet pixel (the sentinel in the outlet array) and a stream that turns in the
+    # bottom-right pixel of the raster without that pixel being an outlet: the connection check must not depend on where the
+    # sentinel sorts
+    N, E, S, X, P = 64, 1, 4, 247, 0
+    d8 = [X, X, X, E, E, P,
+          X, X, X, E, E, N,
+          X, X, X, E, E, N,
+          S, S, S, S, S, N,
+          S, S, S, S, S, N,
+          E, E, E, E, E, N]
+    return [{"k": 1600, "args": [[-1 - j]], "call": {"nr": 6, "nc": 6, "flw": d8, "seed": 11 + j, "cs": 3}, "group": "corpus-sentinel-sorts-first"} for j in range(2)]
+
+
 def cases(tier, rng):
     n = 60 if tier == "quick" else 500
     for t in range(n):
         nr, nc = rng.randint(2, 7), rng.randint(2, 7)
+        if t % 3 == 0:
+            nr, nc = rng.randint(4, 9), rng.randint(4, 9)
         flw = nets.random_d8_raster(rng, nr, nc, p_nodata=rng.choice([0, 0.1, 0.25]))
+        if t % 3 == 0:
+            # blocks of missing cells: coarse cells without outlet pixel, i.e. the sentinel inside outlet arrays (round-6 seeds)
+            from props_c09 import _punch
+            flw = _punch(rng, flw, nr, nc)
         ds = nets.d8_decode(flw, nr, nc)
         if not nets.pits(ds) or sum(1 for d in ds if d >= 0) < 2:
             continue
@@ -54,7 +74,7 @@ def _canon(v, n):
     return v if isinstance(v, (int, str, type(None))) else str(type(v))
 
 
-def _ops(nr, nc, ds, rng):
+def _ops(nr, nc, ds, rng, cs_fixed=None):
     """list of (name, callable(flw) -> value)"""
     n = nr * nc
     R = lambda a: np.asarray(a).reshape(nr, nc)
@@ -67,6 +87,8 @@ def _ops(nr, nc, ds, rng):
     outl = np.array(rng.sample(valid, min(3, len(valid))))
     ids = np.arange(5, 5 + outl.size, dtype=np.uint32)
     cs = rng.choice([2, 3])
+    if cs_fixed:
+        cs = cs_fixed
     upa0 = R([rng.randint(0, 2) for _ in range(n)]).astype(np.float64)       # zeros: the threshold of main_upstream
     ops = [
         ("main_upstream_zero", lambda f: f.main_upstream(uparea=upa0)),
@@ -117,6 +139,11 @@ def _ops(nr, nc, ds, rng):
         ("rivlen_mask_up", lambda f: f.subgrid_rivlen(f.ucat_outlets(cs), mask=mask, direction="up")),
         ("rivlen_fullmask_up", lambda f: f.subgrid_rivlen(f.ucat_outlets(cs), mask=f.mask, direction="up")),
         ("rivavg_fullmask_up", lambda f: f.subgrid_rivavg(f.ucat_outlets(cs), elv, mask=f.mask, direction="up")),
+        # the slope at EVERY cell (idxs_out=None), nodata cells included (defect fixed in the commit after 613aab5: the sentinel used as an index)
+        ("rivslp_all", lambda f: f.subgrid_rivslp(None, elv, length=60.0)), ("rivslp_all_lstsq", lambda f: f.subgrid_rivslp(None, elv, length=90.0, method="lstsq")),
+        ("rivslp_all_mask", lambda f: f.subgrid_rivslp(None, elv, length=60.0, mask=mask)),
+        ("rivslp_up", lambda f: f.subgrid_rivslp(f.ucat_outlets(cs), elv, direction="up")), ("rivslp_down", lambda f: f.subgrid_rivslp(f.ucat_outlets(cs), elv, direction="down")),
+        ("rivslp_down_lstsq_dmm", lambda f: f.subgrid_rivslp(f.ucat_outlets(cs, method="dmm"), elv, direction="down", method="lstsq")),
         ("rivslp_mask", lambda f: f.subgrid_rivslp(f.ucat_outlets(cs), elv, mask=mask)),
         ("river_depth", lambda f: f.river_depth(qbankfull=full * 10, rivwth=full + 1, rivslp=full / 1000.0)),
         ("river_depth_zs", lambda f: f.river_depth(qbankfull=full * 10, rivwth=full + 1, zs=elv, rivdst=f.distnc)),
@@ -176,7 +203,7 @@ def impl(case):
     for dt in DTYPES:
         d = np.dtype(dt)
         mv = -1 if d.kind == "i" else np.iinfo(d).max
-        opsl = _ops(nr, nc, ds, random.Random(call["seed"]))
+        opsl = _ops(nr, nc, ds, random.Random(call["seed"]), call.get("cs"))
         for name, fn in opsl:
             # a fresh object per operation (C12 covers histories)
             arr = np.array([mv if x < 0 else x for x in ds], dtype=d)
